@@ -117,6 +117,10 @@ def history(out: Outcome, rng, cls, lines, expect, well_formed: bool = False) ->
                 out.violation(f"{cls.__name__}: compare modified the reference sample", rep)
                 return
             if fitted_shape is None and kind != "MissingFit":
+                if not isinstance(x, np.ndarray) and isinstance(err, (TypeError, ValueError)):
+                    # the call is wrong twice (no fit, not an array): the property names a rejection for each and does not say which is reported first
+                    out.count("two_clauses_apply_either_rejection_accepted")
+                    continue
                 out.violation(f"{cls.__name__}: compare before fit gives {kind or 'a result'} instead of MissingFitError", rep)
                 return
             if fitted_shape is not None and not isinstance(x, np.ndarray) and err is None:
@@ -179,7 +183,10 @@ def dimension_table(out: Outcome, rng) -> None:
                 got = None
             except Exception as e:  # noqa: BLE001
                 got = type(e)
-            if not (got is not None and issubclass(got, want)):
+            # a multi-column test sample handed to a UNIVARIATE detector falls under two clauses of the property ("differs from the reference: MismatchDimensionError",
+            # "univariate detectors reject multi-column input with DimensionError"): either of the two named errors is the rejection the property asks for
+            both = cls in UNIV and len(test_shape) == 2 and test_shape[1] > 1
+            if not (got is not None and (issubclass(got, want) or (both and issubclass(got, DimensionError)))):
                 out.violation(f"{cls.__name__}: reference {ref_shape} vs test {test_shape} gives {got.__name__ if got else 'a result'} instead of {want.__name__}",
                               {"detector": cls.__name__, "ref_shape": ref_shape, "test_shape": test_shape})
         if cls in MULTI:
